@@ -120,11 +120,12 @@ def scn_normalized(T, case):
 
 
 # ------------------------------------------------------------------------------------ the problem built by SciPyOptimizer
-def _optimizer(T, method, Nv, nl_kinds, lin_kinds, mask, options, max_iter, extra=None, vb=None):
+def _optimizer(T, method, Nv, nl_kinds, lin_kinds, mask, options, max_iter, extra=None, vb=None, parallel=False):
     if T.symbolic:
         sh = T.shadow([MS, MU], extra)
         cls = T.under_contract(sh, MS, "SciPyOptimizer")
-        for q in ("__init__", "_initialize_bounds", "_initialize_constraints", "_initialize_constraints_dict", "_initialize_constraints_object", "_fun", "_jac", "_parse_options", "start"):
+        for q in ("__init__", "_initialize_bounds", "_initialize_constraints", "_initialize_constraints_dict", "_initialize_constraints_object", "_fun", "_jac", "_parse_options", "start") + (
+                ("_function", "_constraint_functions", "_get_function_or_gradient", "_invalidate_cache_if_moved", "_compute_functions_and_gradients") if parallel else ()):
             T.under_contract(sh, MS, "SciPyOptimizer." + q)
         T.under_contract(sh, MU, "get_masked_linear_constraints")
         T.under_contract(sh, MU, "NormalizedConstraints")
@@ -137,15 +138,18 @@ def _optimizer(T, method, Nv, nl_kinds, lin_kinds, mask, options, max_iter, extr
     vbk = vb or "finite"
     lk = {"finite": ["fin"] * Nv, "lower-only": ["fin"] * Nv, "upper-only": ["-inf"] * Nv, "mixed": ["fin", "-inf", "-inf"][:Nv], "none": ["-inf"] * Nv}[vbk]
     uk = {"finite": ["fin"] * Nv, "lower-only": ["+inf"] * Nv, "upper-only": ["fin"] * Nv, "mixed": ["+inf", "fin", "+inf"][:Nv], "none": ["+inf"] * Nv}[vbk]
-    vlb, vub = T.real("var_lb", (Nv,), kinds=np.array(lk, dtype=object)), T.real("var_ub", (Nv,), kinds=np.array(uk, dtype=object))
-    T.assume(T.all(vlb <= vub))
+    # (upper = lower + a non-negative width where both are finite: the pre-condition lower <= upper holds by construction, also for
+    # every random draw of the bounded runs)
+    vlb = T.real("var_lb", (Nv,), kinds=np.array(lk, dtype=object))
+    vwidth, vfree_ub = T.real("var_width", (Nv,), lo=0.0), T.real("var_ub", (Nv,))
+    vub = T.np.array([np.inf if uk[i] == "+inf" else (vfree_ub[i] if lk[i] == "-inf" else vlb[i] + vwidth[i]) for i in range(Nv)])
     x0 = T.real("initial", (Nv,))
     marr = None if mask is None else np.array(mask, dtype=bool)
     cfg = types.SimpleNamespace(
         variables=types.SimpleNamespace(lower_bounds=vlb, upper_bounds=vub, mask=marr, initial_values=x0, types=None),
         nonlinear_constraints=types.SimpleNamespace(lower_bounds=nlb, upper_bounds=nub) if K else None,
         linear_constraints=types.SimpleNamespace(coefficients=A, lower_bounds=llb, upper_bounds=lub) if L else None,
-        optimizer=types.SimpleNamespace(method=method, speculative=False, split_evaluations=False, options=options, max_iterations=max_iter, max_functions=5, output_dir=None, tolerance=1e-3, parallel=False),
+        optimizer=types.SimpleNamespace(method=method, speculative=False, split_evaluations=False, options=options, max_iterations=max_iter, max_functions=5, output_dir=None, tolerance=1e-3, parallel=parallel),
     )
     opt = object.__new__(cls)
     opt._config, opt._method, opt._parallel = cfg, method, False
@@ -165,6 +169,19 @@ def cases_problem(tier):
                 if method == "cobyla":
                     c["vb"] = "none"  # COBYLA takes no variable bounds: with finite ones the constructor rejects the configuration
                 yield "%s/nl=%s/lin=%s/mask=%s" % (method, ",".join(nl) or "-", ",".join(lin) or "-", mask), c
+        if method == "differential_evolution":
+            # vectorized populations (parallel evaluation): SciPy hands over a (variables, members) array and expects (members,) objective
+            # values and a (constraints, members) array - member s everywhere the values AT member s.  Member counts below, equal to and
+            # above the number of free variables and of constraints (3 free variables without the mask, 2 with it)
+            for nl in (("two", "eq"), ("lower",), ("two", "upper", "eq")):
+                for mask in (None, [True, False, True]):
+                    for S in (1, 2, 3, 4):
+                        yield "%s/vectorized/nl=%s/mask=%s/members=%d" % (method, ",".join(nl), mask, S), {"method": method, "nl": list(nl), "lin": [], "mask": mask, "members": S}
+        # long vectors / large populations (more than a thousand numbers per request): bounded run-time checking only
+        if method == "cobyla":
+            yield "cobyla/large/variables=1100/nl=lower", {"method": method, "nl": ["lower"], "lin": [], "mask": None, "vb": "none", "Nv": 1100, "__concrete_only__": True}
+        if method == "differential_evolution":
+            yield "differential_evolution/vectorized/large/variables=12/members=120/nl=two,eq", {"method": method, "nl": ["two", "eq"], "lin": [], "mask": None, "members": 120, "Nv": 12, "__concrete_only__": True}
         # variable bounds with any mix of finite and infinite entries
         for vb in ("lower-only", "upper-only", "mixed", "none"):
             for mask in (None, [True, False, True]):
@@ -173,7 +190,7 @@ def cases_problem(tier):
 
 def scn_problem(T, case):
     method, nl_kinds, lin_kinds, mask = case["method"], case["nl"], case["lin"], case["mask"]
-    Nv = 3
+    Nv = case.get("Nv", 3)
     free = [i for i in range(Nv) if mask is None or mask[i]]
     K, L = len(nl_kinds), len(lin_kinds)
     records = {}
@@ -193,13 +210,17 @@ def scn_problem(T, case):
         for k, v in stubs.items():
             setattr(real, k[1], v)
     try:
-        opt, cfg, (nlb, nub, llb, lub, A, vlb, vub, x0) = _optimizer(T, method, Nv, nl_kinds, lin_kinds, mask, None, None, stubs if T.symbolic else None, vb=case.get("vb"))
+        opt, cfg, (nlb, nub, llb, lub, A, vlb, vub, x0) = _optimizer(T, method, Nv, nl_kinds, lin_kinds, mask, None, None, stubs if T.symbolic else None, vb=case.get("vb"), parallel=bool(case.get("members")))
         Fs = [T.uf("F%d" % j, len(free)) for j in range(1 + K)]
         Gs = [[T.uf("G%d_%d" % (j, i), len(free)) for i in range(len(free))] for j in range(1 + K)]
         calls = []
 
         def callback(v, *, return_functions, return_gradients):
             calls.append((return_functions, return_gradients))
+            if case.get("members"):
+                # batched request: one row per member, (members, 1 + K) values back
+                nf = len(free)
+                return T.np.array([[fj(*[v[b, i] for i in range(nf)]) for fj in Fs] for b in range(v.shape[0])]), T.np.array([])
             f = T.np.array([fj(*[v[i] for i in range(len(free))]) for fj in Fs]) if return_functions else T.np.array([])
             g = T.np.array([[gji(*[v[i] for i in range(len(free))]) for gji in row] for row in Gs]) if return_gradients else T.np.array([])
             return f, g
@@ -256,7 +277,26 @@ def scn_problem(T, case):
         if K and nl_rec:
             kw = nl_rec[0].kw
             T.prove("C08.objects.nonlinear_bounds_are_the_configured_ones", T.same(kw["lb"], nlb) & T.same(kw["ub"], nub))
-            T.prove("C08.objects.nonlinear_function_returns_the_constraint_values", T.same(kw["fun"](xf), T.np.array(nl_vals)))
+            if not case.get("members"):
+                T.prove("C08.objects.nonlinear_function_returns_the_constraint_values", T.same(kw["fun"](xf), T.np.array(nl_vals)))
+        if case.get("members"):
+            S, nf = case["members"], len(free)
+            T.prove("C08.vectorized.populations_are_requested_as_arrays", handed[0].get("vectorized") is True)
+            X = T.real("population", (nf, S))
+            member = lambda j, s_: Fs[j](*[X[i, s_] for i in range(nf)])  # noqa: E731
+            objective = handed[0]["func"](X)
+            T.prove("C08.vectorized.objective_entry_s_is_the_objective_at_member_s", tuple(objective.shape) == (S,) and T.same(objective, T.np.array([member(0, s_) for s_ in range(S)])))
+            # a second population right away (constraints first, no objective request in between), members far from the first
+            Y = X + T.real("population_shift", (nf, S), lo=0.5, hi=2.0)
+            T.assume(T.all([(abs(Y[i, s_] - X[i, s_]) > 1e-3 * (1.0 + abs(X[i, s_]))) & (abs(Y[i, s_] - X[i, s_]) > 1e-3 * (1.0 + abs(Y[i, s_]))) for i in range(nf) for s_ in range(S)]))
+            # ... and a third one that differs from the first in ONE entry of a member in the middle only
+            Z = X.copy()
+            Z[nf // 2, S // 2] = Z[nf // 2, S // 2] + T.real("one_entry_shift", (), lo=0.5, hi=2.0)
+            T.assume((abs(Z[nf // 2, S // 2] - X[nf // 2, S // 2]) > 1e-3 * (1.0 + abs(X[nf // 2, S // 2]))) & (abs(Z[nf // 2, S // 2] - X[nf // 2, S // 2]) > 1e-3 * (1.0 + abs(Z[nf // 2, S // 2]))))
+            for P, tag in ((Y, "second"), (X, "first"), (Z, "one-entry-differs"), (X, "first-again")):
+                vals = nl_rec[0].kw["fun"](P)
+                want = T.np.array([[Fs[1 + k](*[P[i, s_] for i in range(nf)]) for s_ in range(S)] for k in range(K)])
+                T.prove("C08.vectorized.constraint_entry_k_s_is_constraint_k_at_member_s", tuple(vals.shape) == (K, S) and T.same(vals, want), tag)
         return
     # ---- dictionary constraints: entries in row order, non-linear rows first
     want = [(row, side) for row in rows for (i, side) in expected_entries([row[5]])]
@@ -288,6 +328,16 @@ def scn_problem(T, case):
         v2 = Fs[1 + idx](*[xg[i] for i in range(len(free))]) if grp == "nl" else T.total([A[idx, i] * xg_full[i] for i in range(Nv)])
         T.prove("C08.dicts.value_is_that_of_the_point_passed_in", T.same(cons[e]["fun"](xg)[0], (v2 - lo) if side != "up" else (up - v2)))
         T.prove("C08.dicts.value_is_that_of_the_point_passed_in", T.same(cons[e]["fun"](xf)[0], (val - lo) if side != "up" else (up - val)))
+    # ... and at a point that differs from the first in ONE coordinate in the middle only
+    xh = xf.copy()
+    mid = len(free) // 2
+    xh[mid] = xh[mid] + T.real("one_coordinate_shift", (), lo=0.5, hi=2.0)
+    T.assume((abs(xh[mid] - xf[mid]) > 1e-3 * (1.0 + abs(xf[mid]))) & (abs(xh[mid] - xf[mid]) > 1e-3 * (1.0 + abs(xh[mid]))))  # distant in the sense above
+    xh_full = [xh[free.index(i)] if i in free else x0[i] for i in range(Nv)]
+    for e, ((grp, idx, val, lo, up, kind), side) in enumerate(want):
+        v3 = Fs[1 + idx](*[xh[i] for i in range(len(free))]) if grp == "nl" else T.total([A[idx, i] * xh_full[i] for i in range(Nv)])
+        T.prove("C08.dicts.value_is_that_of_the_point_passed_in", T.same(cons[e]["fun"](xh)[0], (v3 - lo) if side != "up" else (up - v3)), "one coordinate differs")
+        T.prove("C08.dicts.value_is_that_of_the_point_passed_in", T.same(cons[e]["fun"](xf)[0], (val - lo) if side != "up" else (up - val)), "first point again")
     # ---- equivalence of the statement
     ok_conf = T.all([feasible(T, val, lo, up) for (_, _, val, lo, up, _) in rows] or [True])
     ok_pass = T.all([(T.same(cons[e]["fun"](xf)[0], 0.0 * xf[0]) if cons[e]["type"] == "eq" else cons[e]["fun"](xf)[0] >= 0) for e in range(len(cons))] or [True])
@@ -302,6 +352,11 @@ def cases_options(tier):
                 yield "%s/options=%s/max_iterations=%s" % (method, options, mi), {"method": method, "options": options, "mi": mi}
                 if options != "list":
                     yield "%s/options=%s/max_iterations=%s/validated-config" % (method, options, mi), {"method": method, "options": options, "mi": mi, "validated": True}
+    # variable types (integer / real) with and without a mask: what differential evolution is told about integrality concerns the
+    # free variables only, in their order
+    for vtypes in ([2, 1], [1, 2], [2, 2]):
+        for mask in (None, [True, False], [False, True]):
+            yield "differential_evolution/options=dict/types=%s/mask=%s" % (vtypes, mask), {"method": "differential_evolution", "options": "dict", "mi": None, "types": vtypes, "mask": mask}
 
 
 def scn_options(T, case):
@@ -316,7 +371,9 @@ def scn_options(T, case):
         for k, v in stubs.items():
             setattr(real, k[1], v)
     try:
-        opt, cfg, parts = _optimizer(T, method, 2, [], [], None, options, mi, stubs if T.symbolic else None)
+        opt, cfg, parts = _optimizer(T, method, 2, [], [], case.get("mask"), options, mi, stubs if T.symbolic else None)
+        if case.get("types"):
+            cfg.variables.types = np.array(case["types"], dtype=np.ubyte)
         if case.get("validated"):
             # the optimizer section as the REAL OptimizerConfig validation produces it from the user's dictionary (the options
             # given as None, {} or a dict are part of the quantifier of C08: what is validated must still say what the user said)
@@ -355,6 +412,10 @@ def scn_options(T, case):
     every = dict(kw.get("options") or {}) if kind == "minimize" else {k: v for k, v in kw.items() if k not in ("func", "x0", "bounds", "constraints", "polish", "vectorized")}
     T.prove("C08.options.no_option_is_invented_and_the_function_budget_is_not_forwarded", set(every) <= given | {key if mi is not None else key, "disp", "integrality", "updating", "workers"}
             and (mi is not None or key in given or key not in every), "passed: %r" % (sorted(every),))
+    if case.get("types"):
+        free = [i for i in range(2) if case.get("mask") is None or case["mask"][i]]
+        T.prove("C08.options.integrality_is_that_of_the_free_variables", "integrality" in kw and [bool(b) for b in np.asarray(kw["integrality"]).reshape(-1)] == [case["types"][i] == 2 for i in free]
+                and len(kw["x0"]) == len(free), "integrality passed: %r for %d free variable(s)" % (kw.get("integrality"), len(free)))
     if isinstance(options, dict):
         T.prove("C08.options.user_options_forwarded", all(kw.get("options", kw).get(k) == v or (k == key and mi is not None) for k, v in options.items()) if kind == "minimize"
                 else all(kw.get(k) == v or (k == key and mi is not None) for k, v in options.items()))
